@@ -124,6 +124,19 @@ CHECKS = {
     design_ref="DESIGN.md section 5, C14",
     note="Trusted: as C01. The tokenizer half is testing, not proof. No axioms.",
     technique="Coq proof (canonical tokens => canonical tree, induction on stream length) + correspondence + canonical-form oracle (testing)"),
+ "C05": dict(
+    category="proof",
+    text="PARTIAL. Proved (Coq), on call lists regenerated on every run from tokenizer.py (ast) and tok_parse.c (brace-aware scan): outside "
+         "four context-bounded recursions NO cycle of calls between tokenizer functions avoids the depth-limit test (_can_recurse / "
+         "Tokenizer_CAN_RECURSE), and a call stack with D depth-limited calls has at most (D+1)*13 frames - for every stack, both tokenizers. "
+         "NOT proved: the quadratic work bound, the route memo, native stack size. Those are decided by measurement: ~60 size-parameterised "
+         "adversarial families (unclosed / crossed / nested openers of every construct, repeated delimiters) at doubling sizes in "
+         "crash-isolating workers: deterministic Python work counts (growth per doubling <= 2^2.7, constant frame depth), C CPU time "
+         "(<= 2^2.9 per doubling), tree depth, and render/filter/strip/pickle of every tree.",
+    design_ref="DESIGN.md section 5, C05",
+    note="Trusted: the call-graph translator (tools/gen_defs.py gen_recursion, fail-closed on unknown guard shapes); the exempt list in "
+         "coq/props/C05.v; growth thresholds. The work bound is measurement, not proof. No axioms.",
+    technique="Coq proof (rank certificate => no unguarded recursion cycle, call-stack bound) over generated call graphs + growth measurement on doubling families (testing)"),
  "C06": dict(
     category="proof",
     text="Theorem (Coq): for ALL prior object states - hence every history of earlier calls, completed or aborted at any point - a call "
